@@ -219,6 +219,30 @@ def depguard(F, rep, gc):
                             "`%s = ...` line: a later `import rust::%s` is then skipped and the manifest ends up "
                             "without the crate" % (name, name, name), file=gc.file, line=t.get("ln"), fn=gc.path))
     rep.floor("DEPGUARD", "crates recorded as already declared", n_ins, 4)
+    # and the converse: a crate whose line HAS been pushed is recorded on every path that continues to the rust:: import
+    # loop — otherwise `import rust::serde_json` next to a serde derive writes a second `serde_json = ..` line and cargo
+    # rejects the manifest (duplicate key)
+    inserts = {}
+    for bi, t in gc.calls():
+        g = callee_generic(t) or ""
+        if g.endswith("::insert") and "HashSet" in g and len(t["args"]) > 1:
+            nm = resolve_str(gc, t["args"][1])
+            if nm:
+                inserts.setdefault(nm, set()).add(bi)
+    pd = postdominators(gc)
+    for (pb, _, txt) in pushes:
+        crate = txt.split("=")[0].strip()
+        if crate not in FIXED_DEPS and crate not in ("incan_stdlib", "incan_derive"):
+            continue
+        ok = any(ib in pd.get(pb, set()) or ib == pb for ib in inserts.get(crate, ()))
+        rep.oblige("DEPGUARD", "written-then-recorded:%s@bb%d" % (crate, pb), ok,
+                   sample={"rule": "DEPGUARD", "dependency": crate, "recorded_on_every_path_after_the_push": ok})
+        if not ok:
+            rep.add(Finding("DEPGUARD", "DEPGUARD|written-not-recorded|%s" % crate,
+                            "generate_cargo_toml pushes a `%s = ...` line without recording the crate as declared on "
+                            "every path that follows: an `import rust::%s` in the same program adds a second line for "
+                            "it and cargo rejects the manifest (duplicate key)" % (crate, crate),
+                            file=gc.file, line=gc.term(pb).get("ln"), fn=gc.path))
     for crate in FIXED_DEPS:
         ok = crate in seen
         rep.oblige("DEPGUARD", "present:" + crate, ok)
